@@ -6,5 +6,6 @@ CONSTANTS
   Vias <- ViasAll
   MaxInject = 1
   Spoof = FALSE
+  RestoreAtTop = TRUE
 CONSTRAINTS GenQuick GenStop
 INVARIANTS Emit
